@@ -254,6 +254,16 @@ func ruleAccumulator(c *eng.Ctx, rule string, fname string) {
 	// captured accumulators
 	for _, a := range captured {
 		key := short + ":captured-accumulator"
+		// the list is never replaced by something that does not contain what was collected
+		// (`return nil` with a named result stores nil into it before it is read back)
+		for _, ref := range *a.Referrers() {
+			st, ok := ref.(*ssa.Store)
+			if !ok || st.Addr != ssa.Value(a) || st.Parent() != fn {
+				continue
+			}
+			n++
+			c.Check(derivesFromLoad(st.Val, a, 0), rule, key+":never-reset", st.Pos(), "the captured error list is only extended, never replaced")
+		}
 		if sliceIdx >= 0 {
 			for _, r := range eng.Returns(fn) {
 				n++
